@@ -386,7 +386,15 @@ Fixpoint draw_if_ids (l : list child_if) : M (list (child_if * N)) :=
   | c :: r => id <- id_or_draw (ci_id c) ;; rest <- draw_if_ids r ;; ret ((c, id) :: rest)
   end.
 
-Definition op_add_component (fl : flavour) (pn : N) (name : str) (node_id : option N)
+(* proposed_fixes/C09-6.patch: add_component_sliver first checks that the parent exists and that every id it is going
+   to add (component, child service, child interfaces) is new and pairwise distinct; `precheck` tells whether the
+   running library does that (read off its source by the harness) *)
+Definition sliver_ids (id : N) (drawn : option (child_ns * N * list (child_if * N))) : list N :=
+  id :: match drawn with Some (_, nsid, ifs) => nsid :: map snd ifs | None => [] end.
+Definition ids_new (g : graph) (l : list N) : bool :=
+  nodupN l && forallb (fun x => negb (has_node g x)) l.
+
+Definition op_add_component (precheck : bool) (fl : flavour) (pn : N) (name : str) (node_id : option N)
            (spec_given : bool) (nic_ctype : bool) (sub_ids_given : bool)
            (cat : res comp_spec) (pure : option exn) : M N :=
   names <- ask (fun g => component_names g pn) ;;
@@ -407,6 +415,11 @@ Definition op_add_component (fl : flavour) (pn : N) (name : str) (node_id : opti
                end ;;
       opt_raise pure ;;;
       (* add_component_sliver *)
+      (if precheck
+       then _ <- ask (fun g => find_node g pn) ;;
+            ok <- ask (fun g => Ok (ids_new g (sliver_ids id drawn))) ;;
+            guard ok EQuery
+       else ret tt) ;;;
       m_add_node (mkNode id cComp name (cs_type spec) 0) ;;;
       m_add_edge pn rHas id ;;;
       match drawn with
@@ -518,6 +531,186 @@ Definition op_peer (fl : flavour) (a b : N) (pure : option exn) : M unit :=
        (fun e => remove_cp_and_links i2 ;;; raise e))
     (fun e => remove_cp_and_links i1 ;;; raise e).
 
+(* ================================================================ calls on existing elements *)
+Definition rbind {A B} (r : res A) (k : A -> res B) : res B := match r with Ok a => k a | Err e => Err e end.
+Fixpoint rflat (l : list N) (f : N -> res (list N)) : res (list N) :=
+  match l with
+  | [] => Ok []
+  | x :: r => rbind (f x) (fun a => rbind (rflat r f) (fun b => Ok (a ++ b)))
+  end.
+Definition all_of_class (g : graph) (c : N) : list N := map nid (filter (fun n => ncls n =? c) (gnodes g)).
+
+(* ModelElement._check_name_unique (fix 6648cd3): the elements of the scope the constructors check *)
+Definition name_scope (g : graph) (x : N) : res (list N) :=
+  rbind (find_node g x) (fun n =>
+    let c := ncls n in
+    if (c =? cNN) || (c =? cLink) then Ok (all_of_class g c)
+    else if c =? cComp then
+      rbind (first_neighbor g x rHas cNN) (fun p1 =>
+      rbind (first_neighbor g x rHas cCN) (fun p2 =>
+      rflat (p1 ++ p2) (fun p => first_neighbor g p rHas cComp)))
+    else if c =? cNS then
+      rbind (first_neighbor g x rHas cNN) (fun p1 =>
+      rbind (first_neighbor g x rHas cCN) (fun p2 =>
+      rbind (first_neighbor g x rHas cComp) (fun p3 =>
+      match p1 ++ p2 ++ p3 with
+      | [] => Ok (all_of_class g cNS)
+      | owners => rflat owners (fun p => first_neighbor g p rHas cNS)
+      end)))
+    else if c =? cCP then
+      rbind (first_neighbor g x rConnects cNS) (fun owners =>
+      rbind (if ntype n =? tSubInterface
+             then rbind (first_neighbor g x rConnects cCP) (fun ps =>
+                  rflat ps (fun p => rbind (node_type g p) (fun t => Ok (if t =? tSubInterface then [] else [p]))))
+             else Ok []) (fun extra =>
+      rflat (owners ++ extra) (fun p => first_neighbor g p rConnects cCP)))
+    else Ok []).
+
+Definition name_free (g : graph) (x : N) (new_name : str) : res bool :=
+  rbind (name_scope g x) (fun sibs =>
+    Ok (negb (existsb (fun s => negb (s =? x) && str_in new_name (names_of g [s])) sibs))).
+
+Definition g_set_name (x : N) (nm : str) (g : graph) : res graph :=
+  match find_node g x with
+  | Err e => Err e
+  | Ok _ => Ok (mkGraph (map (fun n => if nid n =? x then mkNode (nid n) (ncls n) nm (ntype n) (nrest n) else n) (gnodes g))
+                        (gedges g))
+  end.
+Definition g_set_rest (x : N) (r : N) (g : graph) : res graph :=
+  match find_node g x with
+  | Err e => Err e
+  | Ok _ => Ok (mkGraph (map (fun n => if nid n =? x then mkNode (nid n) (ncls n) (nname n) (ntype n) r else n) (gnodes g))
+                        (gedges g))
+  end.
+
+Definition rule_of_class (c : N) : name_rule :=
+  if c =? cNN then rule_node else if c =? cComp then rule_comp else if c =? cNS then rule_svc
+  else if c =? cLink then rule_link else rule_iface.
+
+(* ModelElement.rename(new_name) = the name setter = set_property('name', v): scope check, NAME_REGEX, write *)
+Definition op_rename (x : N) (kind : N) (new_name : str) : M unit :=
+  free <- ask (fun g => name_free g x new_name) ;;
+  guard free ETopology ;;;
+  guard (name_ok (rule_of_class kind) new_name) EValue ;;;
+  mutate (g_set_name x new_name).
+
+(* <element>.set_properties(kwargs) (no name among them): the sliver is built and validated first, then written;
+   `new_rest` is the token of the element's other properties after the write (given by the harness) *)
+Definition op_set_props (x : N) (pure : option exn) (new_rest : N) : M unit :=
+  opt_raise pure ;;;
+  mutate (g_set_rest x new_rest).
+
+(* find_node_by_name(name, class): exactly one *)
+Definition find_by_name (g : graph) (c : N) (nm : str) : res N :=
+  match filter (fun n => (ncls n =? c) && str_eqb (nname n) nm) (gnodes g) with
+  | [n] => Ok (nid n)
+  | _ => Err EQuery
+  end.
+Definition any_service_port (g : graph) (l : list N) : bool := existsb (is_service_port g) l.
+
+(* Topology.remove_link(name) (fix 65db950): a link made by connect_interface/peer is refused *)
+Definition op_remove_link (name : str) : M unit :=
+  lid <- ask (fun g => find_by_name g cLink name) ;;
+  ifs <- ask (fun g => first_neighbor g lid rConnects cCP) ;;
+  sp <- ask (fun g => Ok (any_service_port g ifs)) ;;
+  guard (negb sp) ETopology ;;;
+  m_delete_node lid.
+
+(* NetworkService.unpeer(ns) (fix 24d5e04): the peerings are this service's ServicePorts whose peer over a link
+   is a ServicePort owned by ns; none -> TopologyException before anything is touched *)
+Definition peerings (g : graph) (a b : N) : res (list N * list N) :=
+  rbind (node_cls g a) (fun c =>
+  if negb ((c =? cLink) || (c =? cNS)) then Err EQuery else
+  rbind (first_neighbor g a rConnects cCP) (fun cps =>
+  (fix go (l : list N) : res (list N * list N) :=
+     match l with
+     | [] => Ok ([], [])
+     | cp :: r =>
+         rbind (go r) (fun acc =>
+         if negb (is_service_port g cp) then Ok acc else
+         rbind (peer_cps g cp) (fun prs =>
+         rbind ((fix go2 (ps : list N) : res (list N) :=
+                   match ps with
+                   | [] => Ok []
+                   | q :: r2 =>
+                       rbind (go2 r2) (fun acc2 =>
+                       if negb (is_service_port g q) then Ok acc2 else
+                       rbind (get_parent g q rConnects cNS) (fun o =>
+                       match o with
+                       | Some ow => if ow =? b then Ok (q :: acc2) else Ok acc2
+                       | None => Ok acc2
+                       end))
+                   end) prs) (fun th =>
+         match th with
+         | [] => Ok acc
+         | _ => Ok (cp :: fst acc, th ++ snd acc)
+         end)))
+     end) cps)).
+
+Definition remove_if_cp (x : N) : M unit :=
+  ex <- ask (fun g => match filter (fun n => (nid n =? x) && (ncls n =? cCP)) (gnodes g) with
+                      | [] => Ok false | [_] => Ok true | _ => Err EQuery end) ;;
+  if ex then remove_cp_and_links x else ret tt.
+
+Definition op_unpeer (a b : N) : M unit :=
+  pr <- ask (fun g => peerings g a b) ;;
+  guard (match fst pr with [] => false | _ => true end) ETopology ;;;
+  for_each (dedupN (fst pr ++ snd pr)) remove_if_cp.
+
+(* Topology.add_port_mirror_service: two assertions, then the service constructor with the one interface *)
+Definition tPortMirror : N := 11.
+Definition op_port_mirror (fl : flavour) (name : str) (node_id : option N) (to_if : option iface_h)
+           (from_given : bool) (pure : option exn) : M N :=
+  match to_if with
+  | None => raise EAssert
+  | Some i =>
+      guard from_given EAssert ;;;
+      op_add_service fl name node_id (Some tPortMirror) [i] pure
+  end.
+
+(* NetworkService.connect_interface called directly on an existing service.  `rollback`: does the library
+   remove the ServicePort again when the link cannot be made (proposed_fixes/C09-7.patch)? *)
+Definition connect_interface_rb (fl : flavour) (ns : N) (i : iface_h) : M unit :=
+  nsty <- ask (fun g => node_type g ns) ;;
+  guardrails nsty i ;;;
+  owner <- ask (fun g => iface_owner (owner_fuel g) g (ih_id i)) ;;
+  match owner with
+  | None => raise ETopology
+  | Some on =>
+      oname <- ask (fun g => node_name g on) ;;
+      peers <- ask (fun g => peer_cps g (ih_id i)) ;;
+      guard (match peers with [] => true | _ => false end) ETopology ;;;
+      let pname := oname ++ dash ++ ih_name i in
+      cps <- ask (fun g => service_iface_names g ns) ;;
+      guard (negb (str_in pname cps)) ETopology ;;;
+      ltaken <- ask (fun g => Ok (name_taken g cLink (pname ++ suffix_link))) ;;
+      guard (negb ltaken) ETopology ;;;
+      p <- new_interface fl pname None (Some ns) (Some tServicePort) None ;;
+      catch_any
+        (ity <- ask (fun g => node_type g (ih_id i)) ;;
+         let lty := if ity =? tSharedPort then tL2Path else tPatch in
+         _ <- new_link fl (pname ++ suffix_link) None (Some lty) (Some [i; mkIface p pname]) None ;;
+         ret tt)
+        (fun e => remove_cp_and_links p ;;; raise e)
+  end.
+
+Definition op_connect (rollback : bool) (fl : flavour) (ns : N) (i : iface_h) : M unit :=
+  if rollback then connect_interface_rb fl ns i else connect_interface fl ns i.
+
+(* Interface.add_child_interface on a handle made just now: type assertion, name uniqueness among the child
+   interfaces, the vlan/local_name checks on labels (`label_verdict`: their outcome, computed by the harness from
+   the labels it reads through the API), then the Interface constructor (SubInterface under this interface) *)
+Definition op_add_child (fl : flavour) (x : N) (name : str) (node_id : option N)
+           (label_verdict : option exn) (pure : option exn) : M N :=
+  t <- ask (fun g => node_type g x) ;;
+  guard (t =? tDedicatedPort) EAssert ;;;
+  names <- ask (fun g => rbind (node_cls g x) (fun c => if c =? cCP
+                          then rbind (first_neighbor g x rConnects cCP) (fun l => Ok (names_of g l))
+                          else Err EQuery)) ;;
+  guard (negb (str_in name names)) ETopology ;;;
+  opt_raise label_verdict ;;;
+  new_interface fl name node_id (Some x) (Some tSubInterface) pure.
+
 (* ---------------------------------------------------------------- one call of the history *)
 Inductive call :=
 | CAddNode (name : str) (node_id : option N) (ntype : option N) (pure : option exn)
@@ -525,13 +718,20 @@ Inductive call :=
 | CAddNodeService (pn : N) (name : str) (node_id : option N) (nstype : option N) (pure : option exn)
 | CAddInterface (ns : N) (name : str) (node_id : option N) (itype : option N) (pure : option exn)
 | CAddLink (name : str) (node_id : option N) (ltype : option N) (ifs : option (list iface_h)) (pure : option exn)
-| CAddComponent (pn : N) (name : str) (node_id : option N) (spec_given nic_ctype sub_ids_given : bool)
+| CAddComponent (precheck : bool) (pn : N) (name : str) (node_id : option N) (spec_given nic_ctype sub_ids_given : bool)
                 (cat : res comp_spec) (pure : option exn)
 | CAddFacility (name : str) (node_id : option N) (d_ns d_int : N) (d_intk : list N) (nstype : N)
                (pure_ns : option exn) (ports : option (list fac_port)) (pure_single : option exn)
 | CAddSwitch (rollback : bool) (name : str) (node_id : option N) (d_ns : N) (d_intk : list N) (nstype : N)
              (pure_ns : option exn) (nports : nat) (pure_port : option exn)
-| CPeer (a b : N) (pure : option exn).
+| CPeer (a b : N) (pure : option exn)
+| CRename (x kind : N) (new_name : str)
+| CSetProps (x : N) (pure : option exn) (new_rest : N)
+| CRemoveLink (name : str)
+| CUnpeer (a b : N)
+| CPortMirror (name : str) (node_id : option N) (to_if : option iface_h) (from_given : bool) (pure : option exn)
+| CConnect (rollback : bool) (ns : N) (i : iface_h)
+| CAddChild (x : N) (name : str) (node_id : option N) (label_verdict pure : option exn).
 
 Definition run_call (fl : flavour) (c : call) : M unit :=
   match c with
@@ -540,8 +740,15 @@ Definition run_call (fl : flavour) (c : call) : M unit :=
   | CAddNodeService pn n i t p => _ <- op_add_node_service fl pn n i t p ;; ret tt
   | CAddInterface ns n i t p => _ <- op_add_interface fl ns n i t p ;; ret tt
   | CAddLink n i t l p => _ <- op_add_link fl n i t l p ;; ret tt
-  | CAddComponent pn n i a b c0 cat p => _ <- op_add_component fl pn n i a b c0 cat p ;; ret tt
+  | CAddComponent pc pn n i a b c0 cat p => _ <- op_add_component pc fl pn n i a b c0 cat p ;; ret tt
   | CAddFacility n i a b k t p ports ps => _ <- op_add_facility fl n i a b k t p ports ps ;; ret tt
   | CAddSwitch rb n i a k t p np pp => _ <- op_add_switch rb fl n i a k t p np pp ;; ret tt
   | CPeer a b p => op_peer fl a b p
+  | CRename x k n => op_rename x k n
+  | CSetProps x p r => op_set_props x p r
+  | CRemoveLink n => op_remove_link n
+  | CUnpeer a b => op_unpeer a b
+  | CPortMirror n i t f p => _ <- op_port_mirror fl n i t f p ;; ret tt
+  | CConnect rb ns i => op_connect rb fl ns i
+  | CAddChild x n i lv p => _ <- op_add_child fl x n i lv p ;; ret tt
   end.
